@@ -55,6 +55,9 @@ fn scripts(quick: bool) -> Vec<(Vec<(usize, Step)>, usize)> {
     for s in interleavings(&[many.clone(), vec![sync("m")]]) {
         out.push((s, 2));
     }
+    // set / sync / set from one remote with a pure observer (sync served with a pending change)
+    out.push((vec![(1, link("v")), (0, link("v")), (0, cmd("v", "31")), (0, sync("v")), (0, cmd("v", "32"))], 2));
+    out.push((vec![(1, link("m")), (0, cmd("m", "@update(key:1) 1")), (0, sync("m")), (0, cmd("m", "@update(key:2) 2")), (0, cmd("m", "@remove(key:1)"))], 2));
     // two concurrent syncers
     out.push((sequential(&[vec![link("m"), act(&[&a1, &a2])], vec![sync("m")], vec![sync("m")]]), 3));
     for (i, s) in interleavings(&[pending.clone(), vec![sync("m")], vec![sync("m")]]).into_iter().enumerate() {
